@@ -25,7 +25,7 @@ DESIGN = {
     "C01": (["Loop_quick.cfg"], ["Loop_small.cfg", "Loop_faults.cfg", "Loop_live2.cfg", "Loop_three.cfg"], [("Loop_mut_forward_noidle.cfg", "C01")]),
     "C04": (["Loop_quick.cfg", "Loop_ideal.cfg"], ["Loop_small.cfg", "Loop_ideal.cfg", "Loop_faults.cfg"],
             [("Loop_mut_firstonly.cfg", "C04"), ("Loop_mut_strict.cfg", "C04")]),
-    "C05": (["Loop_quick.cfg", "Loop_live.cfg"], ["Loop_small.cfg", "Loop_faults.cfg", "Loop_live.cfg", "Loop_live2.cfg", "Loop_three.cfg"], [("Loop_mut_skip_noidle.cfg", "C05"), ("Loop_mut_no_reidle.cfg", "C01")]),
+    "C05": (["Loop_quick.cfg", "Loop_live.cfg"], ["Loop_small.cfg", "Loop_faults.cfg", "Loop_live.cfg", "Loop_live2.cfg", "Loop_three.cfg"], [("Loop_mut_skip_noidle.cfg", "C05"), ("Loop_mut_no_reidle.cfg", "C05")]),
     "C08": (["Loop_faults_quick.cfg", "Loop_quick.cfg", "Loop_live_faults.cfg"], ["Loop_faults.cfg", "Loop_small.cfg", "Loop_live_faults.cfg"], [("Loop_mut_exit_without_answer.cfg", "C08")]),
     "C17": (["AlbumArt.cfg"], ["AlbumArt.cfg", "AlbumArt_big.cfg"], [("AlbumArt_mut_limit_offset.cfg", "C17"), ("AlbumArt_mut_empty_is_none.cfg", "C17"), ("AlbumArt_mut_no_fallback.cfg", "C17")]),
     "C18": (["Handshake.cfg"], ["Handshake.cfg"], [("Handshake_mut_eof_is_ok.cfg", "C18"), ("Handshake_mut_skip_verdict.cfg", "C18"), ("Handshake_mut_accept_invalid.cfg", "C18")]),
